@@ -13,6 +13,7 @@ C30 = dict(
         "C30_add_global_appends", "C30_add_memory_appends", "C30_add_data_appends", "C30_add_export_appends", "C30_histories_only_append",
         "C30_mod_init_changes_only_that_global", "C30_mod_init_emission",
         "C30_data_section_exact", "C30_export_section_exact", "C30_global_section_exact", "C30_memory_section_exact",
+        "C30_add_global_end_to_end", "C30_add_globals_sequence", "C30_base_globals_clean",
         "C30_agree_is_equality", "C30_checker_sound_data"]],
     quick=dict(n=1500), thorough=dict(n=30000), per_shard=300,
     rule="generated valid base modules (0-5 imports of all five kinds with random global / memory types, 1-3 local functions, 0-3 local globals of seven value types incl. global.get / ref.func / ref.null "
@@ -24,7 +25,7 @@ C30 = dict(
          "every returned id is referenced from injected code (global.get / memory.size / call); non-trivial = at least one addition or initialiser replacement; distinct by hash of the case term",
     level_text="Proof (Coq, all requests, no bound): the model of InitExpr::to_wasmencoder_type decodes back to the request bit for bit for every InitInstr form (u128-as-i128 wrap lemma in Base/Wrap.v) and is injective; "
                "add_global / add_local_memory / add_data / add_export append exactly one item and return its position, lifted over histories of any length by induction; mod_global_init_expr changes exactly one "
-               "initialiser (state and emission level); every data segment / export / global / memory of the model's output is the stored request; agree is equality, hence an added data segment is in the "
+               "initialiser (state and emission level); every data segment / export / global / memory of the model's output is the stored request; on every freshly parsed module add_global (and any sequence of add_global with constant / ref.null initialisers) yields the old module plus exactly the requested globals, ids consecutive and mapped to themselves; agree is equality, hence an added data segment is in the "
                "*observed* output at the returned id with exactly the requested bytes for every history. Partial for the index-space part (returned ids designate the items after imports are added / entities deleted): "
                "decided per history in Coq on the decoded real output by the handle specification; known classes D03, D06, D24, 300.",
     level_note=NOTE, trusted_base=TB,
